@@ -18,6 +18,7 @@ Non-trivial : a sliding contact (force on the boundary of its cone with positive
 import numpy as np
 
 from vf import gen_cons as gc
+from vf import mj
 from vf.oracle import cons
 from vf.runner import Violation
 
@@ -100,8 +101,9 @@ def main(ck):
   ck.assumptions = ['geom adhesion = 0 (the documentation allows negative net normal force with adhesion)',
                     'dual solvers (PGS, noslip) use dense storage on models whose sparse inertia rows are reduced (input class '
                     'of known finding C10/computeY-simple-dof, counted as excluded:*)',
-                    'noslip is not combined with elliptic cones on models that can produce condim-6 contacts (input class of '
-                    'known finding C11/noslip-qcqp-infeasible, probed separately, counted as excluded:*)']
+                    'noslip is not combined with elliptic cones on models that can produce frictional contacts (input class of '
+                    'known finding C11/noslip-qcqp-infeasible, probed separately, counted as excluded:*); noslip is exercised '
+                    'with pyramidal cones']
   worst = dict(bound=0.0, cone=0.0, qfrc=0.0, decode=0.0, phys=0.0)
   probe_noslip(ck, lib)
 
@@ -113,8 +115,8 @@ def main(ck):
     nv = int(m.nv)
     redM = gc.reduced_M(m)
     rng = np.random.RandomState(case.seed ^ 0x5bd1e995)
-    # condim-6 contact possible in this model? (geom condim, explicit pairs; max rule for mixed pairs)
-    has_dim6 = bool(np.any(np.asarray(m.geom_condim) == 6)) or bool(int(m.npair) and np.any(np.asarray(m.pair_dim) == 6))
+    # frictional contact possible in this model? (geom condim, explicit pairs)
+    has_fric = bool(np.any(np.asarray(m.geom_condim) > 1)) or bool(int(m.npair) and np.any(np.asarray(m.pair_dim) > 1))
     labels = set()
     nontriv = False
     info = {}
@@ -128,9 +130,11 @@ def main(ck):
       if jac == E.mjJAC_SPARSE and redM and (solver == PGS or noslip):
         labels.add('excluded:sparse-dual-on-reduced-M')
         jac = E.mjJAC_DENSE
-      if noslip and case.cone == 'elliptic' and has_dim6:
-        # input class of known finding C11/noslip-qcqp-infeasible (probed separately): excluded by construction, counted
-        labels.add('excluded:noslip-elliptic-condim6')
+      if noslip and case.cone == 'elliptic' and has_fric:
+        # input class of known finding C11/noslip-qcqp-infeasible (probed separately): excluded by construction, counted.
+        # (condim 6 leaves the cone by orders of magnitude; condim 3/4 were observed outside by ~1e-6 relative through the
+        #  same early exit of mju_QCQP2/3 with la == 0)
+        labels.add('excluded:noslip-elliptic-frictional')
         noslip = 0
       m.opt.solver, m.opt.iterations, m.opt.noslip_iterations, m.opt.jacobian = solver, iters, noslip, jac
       m.opt.tolerance = float(rng.choice([0.0, 1e-8]))
@@ -139,7 +143,13 @@ def main(ck):
       fl |= 0 if warm else E.mjDSBL_WARMSTART
       m.opt.disableflags = fl
       d = lib.copy_data(m, d0)
-      lib.mj_forward(m, d)
+      try:
+        lib.mj_forward(m, d)
+      except mj.MjError as e:
+        if 'rank-deficient' in str(e) and gc.illconditioned_hessian(lib, m, d0):
+          labels.add('illconditioned-hessian-skip')
+          continue
+        raise
       tag = '%s/it%d/noslip%d/%s/%s/%s' % (names[solver], iters, noslip, 'island' if island else 'mono',
                                             'sparse' if jac == E.mjJAC_SPARSE else 'dense', 'warm' if warm else 'cold')
       nefc = int(d.nefc)
@@ -283,4 +293,5 @@ decode of efc_force (documented pyramid basis re-implemented) and reproduce the 
 the contact-frame Jacobian computed from mj_jac.'''
 LEVEL_NOTE = '''Sampled, not exhaustive. Geom adhesion (which legitimately allows negative net normal force) is excluded. The
 contact-frame Jacobian uses mj_jac (verified by C07). Dual solvers on sparse storage are excluded for models with reduced
-inertia sparsity (known finding C10/computeY-simple-dof).'''
+inertia sparsity (known finding C10/computeY-simple-dof). noslip is exercised with pyramidal cones only: noslip + elliptic
+cone + frictional contact is the input class of known finding C11/noslip-qcqp-infeasible (one dedicated probe).'''
